@@ -6,6 +6,7 @@ from contracts import k_cache, k_links
 
 def run(rep, tier, seed):
     verify_all(rep, k_cache.specs('C02') + k_links.specs('C02'))
+    k_cache.flush_structural(rep, 'C02')
     rep.trusted.append('b2c / c2b of source lines are uninterpreted here (their contracts are proved under C06)')
     rep.remainder = ('flush-on-write of every position-writing site, the work lists of _make_fst_tree / _unmake_fst_tree / '
                      '_touchall(children) as a whole (their per-node bodies are proved), computed locations: bounded stand-in only')
